@@ -8,7 +8,7 @@ import (
 	"github.com/hack-pad/hackpadfs/mem"
 )
 
-var c05Kinds = []string{"mem", "plain-store", "mount-below", "mount-above", "sub-of-mem", "sub-of-mount"}
+var c05Kinds = []string{"mem", "plain-store", "mount-below", "mount-above", "sub-of-mem", "sub-of-mount", "mount-at-a/a"}
 
 // c05NewFS: layer stacks whose namespace is the model's single tree.
 //   mount-below: the universe lives below a mount point: the caller's "x" is "m/x" of a mount.FS viewed through Sub(.., "m")?  no:
@@ -45,6 +45,14 @@ func c05NewFS() hackpadfs.FS {
 		sub, err := hackpadfs.Sub(base, "s")
 		verifAssert(err == nil, "Sub failed")
 		return sub
+	case 6:
+		// a mount point two levels down whose last element repeats (a/a): paths inside it look like a/a/a
+		root, inner := newMem(), newMem()
+		verifAssert(root.MkdirAll("a/a", 0777) == nil, "MkdirAll mount point")
+		mfs, err := NewFS(root)
+		verifAssert(err == nil, "mount.NewFS failed")
+		verifAssert(mfs.AddMount("a/a", inner) == nil, "AddMount failed")
+		return mfs
 	case 5:
 		root, inner := newMem(), newMem()
 		verifAssert(root.Mkdir("m", 0777) == nil, "Mkdir mount point")
@@ -71,6 +79,12 @@ func VerifC05Step() {
 		e, _ := t.mkdir("a", 0777)
 		verifAssert(e == 0, "model mkdir a")
 	}
+	if verifParam("FSKIND") == 6 {
+		e, _ := t.mkdir("a", 0777)
+		verifAssert(e == 0, "model mkdir a")
+		e, _ = t.mkdir("a/a", 0666) // the mount point shows the mounted FS's root
+		verifAssert(e == 0, "model mkdir a/a")
+	}
 	c05SymTree(fs, t)
 	op := verifChoice("op", len(rOpNames))
 	cands := rCandidates()
@@ -83,6 +97,9 @@ func VerifC05Step() {
 	}
 	verifReach("both-fail")
 	if verifParam("FSKIND") == 2 && (rLastArg == "a" || rLastArg2 == "a") {
+		verifTag("involves", "mount-point")
+	}
+	if verifParam("FSKIND") == 6 && (rLastArg == "a/a" || rLastArg2 == "a/a" || rLastArg == "a" || rLastArg2 == "a") {
 		verifTag("involves", "mount-point")
 	}
 	verifTag("os-errno", r.errno.Error())
